@@ -31,7 +31,9 @@ CLAIMS = {
          "kind and flags of an action of that machine, every timeout/duration is <= 86_400_000_000 us for every oracle value (Flocq proof "
          "of the clamp, NaN/inf included), and a machine in STATE_END never acts again in any later call of any history.", "DESIGN.md section 4, C04"),
  "C05": ("The executable Coq model of framework.rs is the formal statement of the documented semantics; theorems state its structure "
-         "(batch = fold of events + one signal round, machines in index order, clone equality). The model is tied to the code by a "
+         "(batch = fold of events + one signal round, machines in index order, clone equality) and that nothing but the inputs and the consumed part of the "
+         "random stream matters: C05_tape_local / C05_life (a call, and a whole life from Framework::new, give the same state and actions for every tape agreeing on "
+         "the segment they read, positions only grow), C05_tape_suffix (even failing outcomes ignore the tape before the current position). The model is tied to the code by a "
          "whole-state differential (snapshot, actions, step count, internal log after every call) over generated machines x histories "
          "with the implementation's own random draws replayed as the oracle tape.", "DESIGN.md section 4, C05"),
 
